@@ -110,6 +110,20 @@ _poll_dispatch_and_take_back_(struct qb_loop_item *item,
 				   pe->ufd.revents,
 				   pe->item.user_data);
 	if (res < 0) {
+		if (pe->state != QB_POLL_ENTRY_DELETED) {
+			/*
+			 * "Take me out": out of the driver as well, like
+			 * qb_loop_poll_del() does.  A descriptor that stays
+			 * open would otherwise stay in the kernel's set:
+			 * reported in every iteration, refused (EEXIST)
+			 * when it is added again.
+			 */
+			struct qb_poll_source *ps =
+			    (struct qb_poll_source *)pe->item.source;
+
+			(void)ps->driver.del(ps, pe, pe->ufd.fd,
+					     pe->install_pos);
+		}
 		_poll_entry_mark_deleted_(pe);
 	} else if (pe->state != QB_POLL_ENTRY_DELETED) {
 		pe->state = QB_POLL_ENTRY_ACTIVE;
@@ -474,6 +488,8 @@ struct qb_signal_source {
 	struct qb_loop_source s;
 	struct qb_list_head sig_head;
 	sigset_t signal_superset;
+	/* the delivery whose callback is running (it is on no list) */
+	struct qb_loop_sig *dispatching;
 };
 
 struct qb_loop_sig {
@@ -504,10 +520,14 @@ _signal_dispatch_and_take_back_(struct qb_loop_item *item,
 				enum qb_loop_priority p)
 {
 	struct qb_loop_sig *sig = (struct qb_loop_sig *)item;
+	struct qb_signal_source *s = (struct qb_signal_source *)item->source;
 	int32_t res;
 
+	s->dispatching = sig;
 	res = sig->dispatch_fn(sig->signal, sig->item.user_data);
-	if (res != 0) {
+	s->dispatching = NULL;
+	/* the callback may have deleted the registration itself */
+	if (res != 0 && sig->cloned_from != NULL) {
 		(void)qb_loop_signal_del(sig->cloned_from->item.source->l,
 					 sig->cloned_from);
 	}
@@ -797,6 +817,10 @@ qb_loop_signal_del(qb_loop_t * lp, qb_loop_signal_handle handle)
 		}
 	}
 
+	if (s->dispatching != NULL && s->dispatching->cloned_from == sig) {
+		/* deleted from inside its own callback */
+		s->dispatching->cloned_from = NULL;
+	}
 	qb_list_del(&sig->item.list);
 	(void)signal(sig->signal, SIG_DFL);
 	free(sig);
